@@ -96,7 +96,7 @@ CaseResult run_mapped(const RunCtx &ctx, TapeReader &t, unsigned size_hint) {
     o.xthreads = ctx.x("xthreads");
     o.xprocs = ctx.x("xprocs");
     std::vector<K> keys = gen_keys<K>(t, o, meta);
-    const size_t n = keys.size();
+    size_t n = keys.size();
 
     // C12: a generated order of operations; every script contains both constructors and at least one reopen when long enough
     // ops: 0 = create A from range, 1 = create B from raw file, 2 = reopen A's file, 3 = reopen B's file, 4 = reopen the last reopened file again
@@ -117,6 +117,9 @@ CaseResult run_mapped(const RunCtx &ctx, TapeReader &t, unsigned size_hint) {
     const unsigned src_kind = (unsigned) t.below(4);
     // what is at the output path before construction: nothing, or a longer stale file (at the range path, the raw path, or both)
     const unsigned stale = (unsigned) t.below(6);
+    // 1 case in 4: copies of the last key are appended until the index file ends exactly on a page boundary (the harness maps files
+    // with an inaccessible page behind them, see e_mapped.cpp: only then does a read past the last key fault)
+    const bool page_align = t.chance(1, 4);
     std::ostringstream head;
     head << "MappedPGMIndex<" << type_name<K>() << "," << Eps << "," << ER << "," << type_name<F>() << ">";
     if (c12) {
@@ -141,6 +144,26 @@ CaseResult run_mapped(const RunCtx &ctx, TapeReader &t, unsigned size_hint) {
 
     FdJanitor janitor;
     vf_set_threads(meta.threads);
+    if (page_align && keys.size() <= (size_t(1) << 20)) {
+        const std::string fp = ctx.workdir + "/probe.pgm";
+        for (int round = 0; round < 4; ++round) {
+            size_t bytes;
+            {
+                Index probe(keys.begin(), keys.end(), fp);
+                bytes = probe.file_size_in_bytes();
+            }
+            size_t pad = (4096 - bytes % 4096) % 4096;
+            if (pad == 0) {
+                res.label("index_file_ends_on_a_page_boundary");
+                break;
+            }
+            if (pad % sizeof(K)) break;
+            keys.insert(keys.end(), pad / sizeof(K), keys.back());
+        }
+        std::remove(fp.c_str());
+        meta.has_dup = true;
+        n = keys.size();
+    }
     const std::string fa = ctx.workdir + "/a.pgm", fb = ctx.workdir + "/b.pgm", fraw = ctx.workdir + "/raw.bin";
     std::remove(fa.c_str());
     std::remove(fb.c_str());
